@@ -84,6 +84,8 @@ def execution_programs(r, recs, n):
             lws.append(gen.mk_plate("assay", min(pr, 26), pc, 0, (vd + 5) * U, [0] * (min(pr, 26) * pc)))
             op["dest"] = 3
             op["v_dest"] = vd * U
+        if i % 3 == 0:
+            op["used_before"] = True  # the plan object was executed on other labware before
         dev = "evo" if i % 2 == 0 else "fluent"
         wlmax = r.choice([950, 1000, 200, 60]) * U
         h = gen.header(f"C14/x{i}", dev, Fraction(1, U), wlmax, lws, flags={"comp": False, "norm": False})
